@@ -686,14 +686,53 @@ func c16Engine(env *Env, rep *Report) {
 		p.Node("end", "end")
 		p.Flow("start", "T", "")
 		p.Flow("T", "end", "")
-		shared := []bpmn.Option{bpmn.WithVariables(map[string]any{"x": "orig", "n": 1})}
+		callers := schema.NewValue("orig-y")
+		shared := []bpmn.Option{bpmn.WithVariables(map[string]any{"x": "orig", "n": 1, "y": callers})}
 		defsA, _ := ParseDefs(p.XML(""))
 		defsB, _ := ParseDefs(p.XML(""))
 		inA, err := StartInst(defsA, InstOpt{Opts: shared})
 		must(err)
 		inB, err := StartInst(defsB, InstOpt{Opts: shared, NoStart: true})
 		must(err)
+		// a snapshot keeps the values it was taken with, whatever is stored afterwards (same type or not)
+		snapshot := inA.P.Locator().CloneVariables()
 		inA.P.Locator().SetVariable("x", "changed-in-a")
+		inA.P.Locator().SetVariable("y", "changed-in-a")
+		inA.P.Locator().SetVariable("n", 2)
+		for name, want := range map[string]string{"x": "orig", "y": "orig-y", "n": "1"} {
+			if it, ok := snapshot[name]; !ok || fmt.Sprint(it.Value()) != want {
+				rep.Violate("C16-aliasing", cs, fmt.Sprintf("a snapshot of the variables taken before %s was written again now reads %v, expected %s", name, it, want))
+			}
+			if v, _ := inA.P.Locator().GetVariable(name); fmt.Sprint(v) == want {
+				rep.Violate("C16-engine", cs, fmt.Sprintf("variable %s written again still reads %v", name, v))
+			}
+		}
+		if got := fmt.Sprint(callers.Value()); got != "orig-y" {
+			rep.Violate("C16-isolation", cs, "the caller's own value was rewritten by an instance: "+got)
+		}
+		if v, _ := inB.P.Locator().GetVariable("y"); fmt.Sprint(v) != "orig-y" {
+			rep.Violate("C16-isolation", cs, fmt.Sprintf("the second instance reads y = %v, expected \"orig-y\"", v))
+		}
+		if v, _ := inB.P.Locator().GetVariable("n"); fmt.Sprint(v) != "1" {
+			rep.Violate("C16-isolation", cs, fmt.Sprintf("the second instance reads n = %v, expected 1", v))
+		}
+		// a locator filled from another one is a copy
+		{
+			parent := data.NewFlowDataLocator()
+			parent.SetVariable("name", "parent")
+			parent.SetVariable("k", uint8(200))
+			child := data.NewFlowDataLocator()
+			child.Merge(parent)
+			child.SetVariable("name", "child")
+			child.SetVariable("k", int64(-1))
+			pn, _ := parent.GetVariable("name")
+			pk, _ := parent.GetVariable("k")
+			cn, _ := child.GetVariable("name")
+			ck, _ := child.GetVariable("k")
+			if fmt.Sprintf("%v %v %v %v", pn, pk, cn, ck) != "parent 200 child -1" {
+				rep.Violate("C16-aliasing", cs, fmt.Sprintf("a locator merged from another one and written: source reads %v %v, copy reads %v %v", pn, pk, cn, ck))
+			}
+		}
 		if tt := inA.WaitTask("T", tmoStep); tt != nil {
 			tt.Do(bpmn.DoWithResults(map[string]any{"foo": 7}))
 			inA.WaitCease(tmoStep)
@@ -704,8 +743,8 @@ func c16Engine(env *Env, rep *Report) {
 		if _, ok := inB.P.Locator().GetVariable("foo"); ok {
 			rep.Violate("C16-isolation", cs, "the first instance's task result foo is visible in the second instance")
 		}
-		if n := len(inB.P.Locator().CloneVariables()); n != 2 {
-			rep.Violate("C16-isolation", cs, fmt.Sprintf("the second instance has %d variables, expected 2", n))
+		if n := len(inB.P.Locator().CloneVariables()); n != 3 {
+			rep.Violate("C16-isolation", cs, fmt.Sprintf("the second instance has %d variables, expected 3", n))
 		}
 		inA.Close()
 		inB.Close()
